@@ -108,6 +108,8 @@ def init_with_drop(rig, step: int):
         t.cancel()
         rig.pump()
         return ("hang", None)
+    if t.cancelled():
+        return ("exc", "CancelledError")
     if t.exception() is not None:
         return ("exc", type(t.exception()).__name__)
     return ("ok", t.result())
